@@ -262,6 +262,34 @@ func intrinsic(fr *frame, fn *ssa.Function, args []value) (value, bool) {
 		c := e.choice(n)
 		e.inputs = append(e.inputs, inputRec{name: name, kind: "choice", c: uint64(c)})
 		return c, true
+	case "Arbitrary":
+		// Arbitrary(ptr any, doc, format string): *ptr = an arbitrary decoded value (arbitrary.go)
+		it, _ := args[0].(iface)
+		pt, ok := it.t.(*types.Pointer)
+		cell, ok2 := it.v.(*value)
+		if !ok || !ok2 || cell == nil {
+			panic(engineError{"verifrt.Arbitrary needs a non-nil pointer"})
+		}
+		d := &docRec{name: argString(args[1]), format: argString(args[2]), t: pt.Elem(), root: cell}
+		for _, o := range e.docs {
+			if o.name == d.name {
+				panic(engineError{"verifrt.Arbitrary: document " + d.name + " built twice"})
+			}
+		}
+		e.docs = append(e.docs, d)
+		if rp, isPtr := pt.Elem().Underlying().(*types.Pointer); isPtr && d.format == "toml" {
+			// TOML has no null: decoding into a nil pointer always allocates the value
+			inner := new(value)
+			*inner = arbitrary(rp.Elem(), d.name+"*", d, 0)
+			*cell = inner
+		} else {
+			*cell = arbitrary(pt.Elem(), d.name, d, 0)
+		}
+		e.noteStub("decoder stub: arbitrary " + pt.Elem().String() + " (" + d.format + ")")
+		return nil, true
+	case "Document":
+		// natively the rendered document; here a placeholder (the decoder is stubbed)
+		return []value{uint8('{'), uint8('}')}, true
 	case "And":
 		return wrap(tand(boolTerm(args[0]), boolTerm(args[1])), types.Bool), true
 	case "Or":
